@@ -24,19 +24,23 @@ def configs(ctx):
     base = dict(D=1, P1=2, P2=0, N1=3, N2=0, MaxLev=3, Disp=0, TruncMark=False, MaxCalls=3, MarkCap=0, DoEmit=True)
     out = []
 
-    def add(name, workers=2, **kw):
+    def add(name, workers=2, repr=False, **kw):
         c = dict(base)
         c.update(kw)
-        out.append((name, c, workers))
-    add('1d-p2-n3-inf')
-    add('1d-p2-n3-d1', Disp=1)
+        out.append((name, c, workers, repr))
+    add('1d-p2-n3-inf', repr=True, MaxCalls=2)
+    add('1d-p2-n3-d1', Disp=1, repr=True)
     add('1d-p1-n4-d1', P1=1, N1=4, Disp=1)
-    add('1d-p3-n2-d1', P1=3, N1=2, Disp=1)
+    add('1d-p3-n2-d1', P1=3, N1=2, Disp=1, repr=True)
     add('1d-p2-n2-L4-d1', N1=2, MaxLev=4, Disp=1, MaxCalls=3, MarkCap=2)
     add('1d-p2-n3-d1-trunc', Disp=1, TruncMark=True)
     add('2d-p1-2x2-inf', D=2, P1=1, P2=1, N1=2, N2=2, MaxCalls=2, MarkCap=2, workers=4)
+    add('2d-p1-2x2-inf-repr', D=2, P1=1, P2=1, N1=2, N2=2, MaxCalls=2, MarkCap=1, workers=4, repr=True)
     add('2d-p12-2x2-d1', D=2, P1=1, P2=2, N1=2, N2=2, Disp=1, MaxCalls=2, MarkCap=2, workers=4)
     if ctx.thorough:
+        add('1d-p2-n3-inf-c3', repr=True, workers=4)
+        add('1d-p1-n2-L4-d1-repr', P1=1, N1=2, MaxLev=4, Disp=1, MarkCap=2, repr=True, workers=4)
+        add('2d-p21-2x2-d1-repr', D=2, P1=2, P2=1, N1=2, N2=2, Disp=1, MaxCalls=2, MarkCap=2, workers=8, repr=True)
         add('1d-p2-n4-d2-L4', N1=4, MaxLev=4, Disp=2, MarkCap=3, workers=4)
         add('1d-p1-n3-inf-L4', P1=1, N1=3, MaxLev=4, MarkCap=3, workers=4)
         add('1d-p3-n3-d1-trunc', P1=3, N1=3, Disp=1, TruncMark=True)
@@ -87,6 +91,52 @@ def check_queries(ctx, name, st, hs):
         if got != exp:
             ctx.violation('compute_supports ' + sig, {'function': [l, x], 'got': sorted(got), 'expected': sorted(exp)})
             return
+
+
+def dense(sp, nr, nc):
+    from fractions import Fraction
+    A = np.zeros((nr, nc))
+    for r, c, n, d in sp:
+        A[r, c] = float(Fraction(n, d))
+    return A
+
+
+def check_repr(ctx, name, consts, rp):
+    """exact HB/THB representation matrices of the spec vs represent_fine, thb_to_hb, hb_to_thb."""
+    hist = rp['hist']
+    marks = [c['marks'] for c in hist]
+    sig = 'config=%s marks=%s' % (name, json.dumps(marks))
+    hs, events, err = hs_util.replay_history(consts, hist, containers=('set',), truncflag=consts['TruncMark'])
+    if err is not None:
+        return      # reported by the main replay
+    F = [(l, tuple(x)) for l, x in hs.active_functions(flat=True)]
+    if F != [(e['l'], tuple(e['x'])) for e in rp['canonF']]:
+        return      # admissible closure different from the model: the spec's matrices do not apply
+    nc = len(F)
+    H = dense(rp['hb'], rp['nfine'], nc)
+    T = dense(rp['thb'], rp['nfine'], nc)
+    try:
+        Hc = hs.represent_fine(truncate=False).toarray()
+        Tc = hs.represent_fine(truncate=True).toarray()
+        t2h = hs.thb_to_hb().toarray()
+        h2t = hs.hb_to_thb().toarray()
+    except Exception as ex:
+        ctx.violation('exception %s in represent_fine/thb_to_hb %s' % (type(ex).__name__, sig), {'error': repr(ex)})
+        return
+    ctx.case(('repr', name, json.dumps(marks)), nontrivial=hs.numlevels >= 2,
+             sample={'config': name, 'marks_per_call': marks, 'repr_shape': list(H.shape),
+                     'thb_nonzeros': len(rp['thb'])} if len(hist) == 2 and len(ctx.samples) < 5 else None)
+    tol = 1e-12
+    if Hc.shape != H.shape or abs(Hc - H).max() > tol:
+        ctx.violation('represent_fine-HB ' + sig, {'maxdiff': float(abs(Hc - H).max()) if Hc.shape == H.shape else 'shape'})
+    elif abs(Tc - T).max() > tol:
+        ctx.violation('represent_fine-THB ' + sig, {'maxdiff': float(abs(Tc - T).max())})
+    elif abs(H @ t2h - T).max() > 1e-11:
+        ctx.violation('thb_to_hb-not-same-function ' + sig, {'maxdiff': float(abs(H @ t2h - T).max())})
+    elif abs(T @ h2t - H).max() > 1e-11:
+        ctx.violation('hb_to_thb-not-same-function ' + sig, {'maxdiff': float(abs(T @ h2t - H).max())})
+    elif abs(t2h @ h2t - np.eye(nc)).max() > 1e-11:
+        ctx.violation('thb_hb-transforms-not-inverse ' + sig, {})
 
 
 def validate_events(ctx, name, cfg, events, origin):
@@ -186,9 +236,10 @@ def run(ctx):
     todo = configs(ctx)
 
     def one(item):
-        name, consts, workers = item
-        cfg = write_cfg(ctx.scratch / ('hs_%s.cfg' % name), consts, invariants=INVS, view='View')
-        return name, consts, ctx.tlc('HSpace', cfg, workers=workers, timeout=3000)
+        name, consts, workers, rep = item
+        cfg = write_cfg(ctx.scratch / ('hs_%s.cfg' % name), consts, invariants=INVS + (['BasisOK'] if rep else []),
+                        view='View')
+        return name, consts, ctx.tlc('HRepr' if rep else 'HSpace', cfg, workers=workers, timeout=3000)
     with ThreadPoolExecutor(4) as ex:
         results = list(ex.map(one, todo))
 
@@ -222,6 +273,8 @@ def run(ctx):
                 continue
             if same:
                 check_queries(ctx, name, st, hs)
+        for rp in res.recs('REPR'):
+            check_repr(ctx, name, consts, rp)
         # M2: all recorded events of this configuration in one TLC run
         # de-duplicate identical events (shared prefixes of histories)
         seen, uniq = set(), []
